@@ -59,6 +59,15 @@ def run(ctx):
                          (['CCC', 'C1CC1'], [RING[0]]), (['C1CC1', 'CCC'], [RING[0]]), (['CC', 'C=C', '[CH2][CH2]'], [RING[3]]),
                          (['CCO', 'CC[O]', '[CH2]CO'], [RING[2]])):
         jobs.append({'seeds': seeds, 'rules': rules, 'timeout': 300})
+    # two seeds of different element sets in both orders with a rule that needs the element only ONE of them has; two different
+    # RING rules that carry the same name
+    for seeds, rules in ((['CO', 'C'], [SMARTS[2]]), (['C', 'CO'], [SMARTS[2]]), (['CCO', 'CC'], [SMARTS[3], SMARTS[0]]), (['CN', 'CC'], [SMARTS[5]]),
+                         (['CN', 'C'], [SMARTS[5], SMARTS[1]]), (['OO', 'C'], [SMARTS[2]]), (['CO', 'CC'], [RING[2]]), (['CC', 'CO'], [RING[3], RING[1]])):
+        jobs.append({'seeds': seeds, 'rules': rules, 'timeout': 300})
+    same_name = [RING[0].replace('rule ch{', 'rule scission{'), RING[1].replace('rule cc{', 'rule scission{'), RING[3].replace('rule co{', 'rule scission{')]
+    jobs.append({'seeds': ['CC'], 'rules': same_name[:2], 'timeout': 300})
+    jobs.append({'seeds': ['CC'], 'rules': same_name[1::-1], 'timeout': 300})
+    jobs.append({'seeds': ['CCO'], 'rules': same_name, 'timeout': 300})
     # a network generated after another one in the same process, the same species written with another atom order
     for warm, seeds, rules in ((['CCO'], ['OCC'], [RING[1]]), (['CO'], ['OC'], [RING[0]]), (['CC=C'], ['C=CC'], [RING[0], RING[1]]),
                                (['CCO'], ['C(O)C'], [RING[3], RING[2]]), (['OCC'], ['CCO'], [SMARTS[1], SMARTS[3]]), (['CCC'], ['CC'], [RING[0]])):
